@@ -2,6 +2,7 @@ package main
 
 import (
 	"go/token"
+	"go/types"
 	"sort"
 	"strings"
 
@@ -103,6 +104,19 @@ func OriginsVia(v ssa.Value) ([]Origin, map[string]bool) {
 				} else {
 					add(Origin{"call", strings.ReplaceAll(calleeName(c), modPath+"/", ""), x})
 				}
+			} else if sel, ok := x.Tuple.(*ssa.Select); ok {
+				// value received in a select arm: Extract index 2+k is the k-th receive state
+				k := 0
+				name := "select"
+				for _, st := range sel.States {
+					if st.Dir == types.RecvOnly {
+						if k == x.Index-2 {
+							name = chanStable(st.Chan)
+						}
+						k++
+					}
+				}
+				add(Origin{"recv", name, x})
 			} else {
 				walk(x.Tuple, d+1)
 			}
